@@ -147,6 +147,8 @@ struct Dfs<'a> {
     depth: usize,
     acc: Acc,
     counter: u64,
+    /// totality mode (C07): every rendered text goes to this sink instead of the C09 oracle
+    sink: Option<&'a mut dyn FnMut(&str)>,
 }
 
 impl<'a> Dfs<'a> {
@@ -158,6 +160,10 @@ impl<'a> Dfs<'a> {
         self.counter += 1;
         let variant = self.counter.wrapping_mul(2654435761) >> 3;
         let (src, spans) = render_tokens(kinds, variant);
+        if let Some(sink) = self.sink.as_mut() {
+            sink(&src);
+            return;
+        }
         // self-check of the rendering: R-lex must see exactly these tokens
         match rlex(&src) {
             Ok(toks) if toks.len() == kinds.len() && toks.iter().zip(kinds).all(|(t, k)| t.kind == KINDS[*k as usize]) && toks.iter().zip(&spans).all(|(t, s)| (t.start, t.end) == *s) => {}
@@ -217,6 +223,54 @@ impl<'a> Dfs<'a> {
     }
 }
 
+pub const UNIT_LEN: usize = 6;
+
+/// The viable prefixes of exactly UNIT_LEN tokens (units of parallel work), in DFS order.
+pub fn text_units() -> Vec<Vec<u8>> {
+    let rk = rkiki();
+    let a = Analysis::new(&rk.g);
+    fn collect<'a>(e: &mut Earley<'a>, kinds: &mut Vec<u8>, want: usize, out: &mut Vec<Vec<u8>>) {
+        if kinds.len() == want {
+            out.push(kinds.clone());
+            return;
+        }
+        for k in 0..17u8 {
+            if e.push(k) {
+                kinds.push(k);
+                collect(e, kinds, want, out);
+                kinds.pop();
+                e.pop();
+            }
+        }
+    }
+    let mut units = vec![];
+    let mut e = Earley::new(&a);
+    collect(&mut e, &mut vec![], UNIT_LEN, &mut units);
+    units
+}
+
+/// Totality mode: calls `f` on every text the C09 exploration renders below `unit`
+/// (`None`: the shallow part above the units), to the given depth.
+pub fn for_each_text(depth: usize, unit: Option<(usize, &[u8])>, f: &mut dyn FnMut(&str)) {
+    let rk = rkiki();
+    let a = Analysis::new(&rk.g);
+    let mut e = Earley::new(&a);
+    match unit {
+        None => {
+            let mut d = Dfs { a: &a, depth: UNIT_LEN - 1, acc: Acc::default(), counter: 0, sink: Some(f) };
+            d.dfs(&mut e, &mut vec![]);
+        }
+        Some((ui, u)) => {
+            for k in u {
+                assert!(e.push(*k));
+            }
+            let mut d = Dfs { a: &a, depth, acc: Acc::default(), counter: (ui as u64) << 36, sink: Some(f) };
+            let mut kinds = u.to_vec();
+            d.dfs(&mut e, &mut kinds);
+        }
+    }
+}
+
 /// Tables of the checked-in parser.rs vs the reference LALR(1) tables of R-kiki.
 pub fn parser_rs_isomorphism() -> Result<(usize, usize), String> {
     let rk = rkiki();
@@ -247,9 +301,9 @@ pub fn run(ctx: &Ctx) -> Outcome {
         machinery_error("C09: R-kiki has unproductive nonterminals");
     }
     // units: viable prefixes of length 3; shallower nodes are handled by the sequential part
-    let unit_len = 6usize;
+    let unit_len = UNIT_LEN;
     let mut units: Vec<Vec<u8>> = vec![];
-    let mut top = Dfs { a: &a, depth: unit_len - 1, acc: Acc::default(), counter: 0 };
+    let mut top = Dfs { a: &a, depth: unit_len - 1, acc: Acc::default(), counter: 0, sink: None };
     {
         let mut e = Earley::new(&a);
         let mut kinds = vec![];
@@ -289,7 +343,7 @@ pub fn run(ctx: &Ctx) -> Outcome {
         .par_iter()
         .enumerate()
         .map(|(ui, u)| {
-            let mut d = Dfs { a: &a, depth, acc: Acc::default(), counter: (ui as u64) << 36 };
+            let mut d = Dfs { a: &a, depth, acc: Acc::default(), counter: (ui as u64) << 36, sink: None };
             if t0.elapsed().as_secs_f64() > budget {
                 d.acc.inc("units skipped by the wall-clock budget");
                 return d.acc;
